@@ -640,11 +640,329 @@ fn conc_case(seed: u64) -> (Vec<(String, String)>, u64, u64) {
     (viol, runs, wake_calls.len() as u64)
 }
 
+// ------------------------------------------------------------------ re-entrant
+
+/// Handles that the future itself can reach (from inside `poll` and from its
+/// own destructor): the cancel token, the promise, wakers held by the harness
+/// and wakers owned by the future.
+#[derive(Default)]
+struct ReShared {
+    token: Mutex<Option<VCancelToken>>,
+    promise: Mutex<Option<VPromise<Out>>>,
+    wakers: Mutex<Vec<Waker>>,
+    outputs: Mutex<Vec<Out>>,
+}
+
+#[derive(Clone, Copy, Debug, PartialEq)]
+enum ReAct {
+    /// Cancels the task through its own token.
+    Cancel,
+    /// Drops the token without cancelling.
+    DropToken,
+    /// Wakes the task through the waker of the current poll (by reference).
+    WakeSelf,
+    /// Keeps a clone of the current waker inside the future (dropped with it).
+    OwnWaker,
+    /// Hands a clone of the current waker to the harness.
+    ShareWaker,
+    /// Wakes through a harness-held waker (by value / by reference).
+    WakeShared,
+    WakeSharedByRef,
+    DropSharedWakers,
+    DropPromise,
+    PollPromise,
+}
+const RE_ACTS: [ReAct; 10] = [ReAct::Cancel, ReAct::DropToken, ReAct::WakeSelf, ReAct::OwnWaker, ReAct::ShareWaker, ReAct::WakeShared, ReAct::WakeSharedByRef, ReAct::DropSharedWakers, ReAct::DropPromise, ReAct::PollPromise];
+
+struct ReFut {
+    st: Arc<TState>,
+    sh: Arc<ReShared>,
+    polls_to_complete: u64,
+    /// Actions performed inside poll number k (1-based), and inside `drop`.
+    in_poll: Vec<Vec<ReAct>>,
+    in_drop: Vec<ReAct>,
+    owned: Vec<Waker>,
+    plain: u64,
+}
+fn re_apply(a: ReAct, sh: &ReShared, cur: Option<&Waker>, owned: &mut Vec<Waker>) {
+    match a {
+        ReAct::Cancel => {
+            let t = sh.token.lock().unwrap().take();
+            if let Some(t) = t {
+                t.cancel();
+            }
+        }
+        ReAct::DropToken => {
+            let t = sh.token.lock().unwrap().take();
+            drop(t);
+        }
+        ReAct::WakeSelf => {
+            if let Some(w) = cur.or(owned.last()) {
+                w.wake_by_ref();
+            }
+        }
+        ReAct::OwnWaker => {
+            if let Some(w) = cur {
+                owned.push(w.clone());
+            }
+        }
+        ReAct::ShareWaker => {
+            if let Some(w) = cur.or(owned.last()) {
+                let w = w.clone();
+                sh.wakers.lock().unwrap().push(w);
+            }
+        }
+        ReAct::WakeShared => {
+            let w = sh.wakers.lock().unwrap().pop();
+            if let Some(w) = w {
+                w.wake();
+            }
+        }
+        ReAct::WakeSharedByRef => {
+            let w = sh.wakers.lock().unwrap().last().cloned();
+            if let Some(w) = w {
+                w.wake_by_ref();
+            }
+        }
+        ReAct::DropSharedWakers => {
+            let v = std::mem::take(&mut *sh.wakers.lock().unwrap());
+            drop(v);
+        }
+        ReAct::DropPromise => {
+            let p = sh.promise.lock().unwrap().take();
+            drop(p);
+        }
+        ReAct::PollPromise => {
+            let p = sh.promise.lock().unwrap().take();
+            if let Some(p) = p {
+                if let VStage::Ready(o) = p.poll() {
+                    sh.outputs.lock().unwrap().push(o);
+                }
+                *sh.promise.lock().unwrap() = Some(p);
+            }
+        }
+    }
+}
+impl Future for ReFut {
+    type Output = Out;
+    fn poll(mut self: Pin<&mut Self>, cx: &mut Context<'_>) -> Poll<Out> {
+        let st = self.st.clone();
+        let sh = self.sh.clone();
+        if st.in_poll.swap(true, SeqCst) {
+            st.overlap.fetch_add(1, SeqCst);
+        }
+        if st.completed.load(SeqCst) || st.fut_dropped.load(SeqCst) > 0 {
+            st.poll_after_done.fetch_add(1, SeqCst);
+        }
+        self.plain += 1;
+        let n = st.polls.fetch_add(1, SeqCst) + 1;
+        let acts = self.in_poll.get(n as usize - 1).cloned().unwrap_or_default();
+        let this = &mut *self;
+        for a in acts {
+            re_apply(a, &sh, Some(cx.waker()), &mut this.owned);
+        }
+        let r = if n >= this.polls_to_complete {
+            st.completed.store(true, SeqCst);
+            Poll::Ready(Out(st.clone()))
+        } else {
+            Poll::Pending
+        };
+        st.in_poll.store(false, SeqCst);
+        r
+    }
+}
+impl Drop for ReFut {
+    fn drop(&mut self) {
+        if self.st.in_poll.load(SeqCst) {
+            self.st.overlap.fetch_add(1, SeqCst);
+        }
+        let n = self.st.fut_dropped.fetch_add(1, SeqCst);
+        if n == 0 {
+            let acts = std::mem::take(&mut self.in_drop);
+            let sh = self.sh.clone();
+            for a in acts {
+                re_apply(a, &sh, None, &mut self.owned);
+            }
+        }
+        // The wakers owned by the future are released here, inside its destructor.
+        self.owned.clear();
+    }
+}
+
+/// One re-entrant case: scripted actions inside polls and inside the
+/// destructor, external operations in between, then release of everything.
+/// Oracle (end of history): the future was dropped exactly once, its output
+/// exactly once iff produced, polls never overlapped each other or the
+/// destructor, no poll after completion or drop, nothing is left scheduled.
+/// Memory errors (double free, use after free, leaks) are left to Miri/ASan
+/// and, natively, to the allocator aborting the process (reported as a crash).
+fn reent_case(seed: u64, script: Option<(Vec<Vec<ReAct>>, Vec<ReAct>, Vec<u8>, u64, bool)>, avoid_cycles: bool) -> Result<(u64, String), String> {
+    let mut rng = Rng::new(seed);
+    let (in_poll, in_drop, ext, ptc, with_promise) = match script {
+        Some(s) => s,
+        None => {
+            let npolls = rng.range(1, 4) as usize;
+            let mut in_poll = Vec::new();
+            for _ in 0..npolls {
+                let k = rng.below(4) as usize;
+                in_poll.push((0..k).map(|_| *rng.pick(&RE_ACTS)).collect::<Vec<_>>());
+            }
+            let k = rng.below(3) as usize;
+            let in_drop: Vec<ReAct> = (0..k).map(|_| *rng.pick(&[ReAct::WakeSelf, ReAct::WakeShared, ReAct::WakeSharedByRef, ReAct::DropSharedWakers, ReAct::DropPromise, ReAct::PollPromise, ReAct::DropToken, ReAct::Cancel])).collect();
+            let ext: Vec<u8> = (0..rng.range(2, 10)).map(|_| rng.below(8) as u8).collect();
+            (in_poll, in_drop, ext, rng.range(1, 5), rng.chance(2, 3))
+        }
+    };
+    let desc = format!("in_poll={:?} in_drop={:?} external={:?} polls_to_complete={} with_promise={}", in_poll, in_drop, ext, ptc, with_promise);
+    // A future that owns a waker of its own task forms a reference cycle which
+    // only a cancellation breaks (as the executors do at tear-down); if the
+    // script throws the token away without cancelling, never dropping the
+    // future is the documented outcome, not a leak of the task implementation.
+    let owns_waker = in_poll.iter().flatten().any(|a| *a == ReAct::OwnWaker);
+    let token_discarded = in_poll.iter().flatten().chain(in_drop.iter()).any(|a| *a == ReAct::DropToken) || (ext.iter().any(|e| *e == 7) && seed % 4 == 3);
+    let cycle_possible = owns_waker && token_discarded;
+    if cycle_possible && avoid_cycles {
+        // Leak detectors (Miri, LeakSanitizer) would report the documented cycle.
+        return Ok((0, format!("{} [skipped under a leak detector]", desc)));
+    }
+    let st = Arc::new(TState::default());
+    let sh = Arc::new(ReShared::default());
+    let tag = NEXT_TAG.fetch_add(1, Relaxed);
+    let fut = ReFut { st: st.clone(), sh: sh.clone(), polls_to_complete: ptc, in_poll, in_drop, owned: Vec::new(), plain: 0 };
+    let first = if with_promise {
+        let (p, r, c) = spawn(fut, schedule, tag);
+        *sh.promise.lock().unwrap() = Some(p);
+        *sh.token.lock().unwrap() = Some(c);
+        r
+    } else {
+        let (r, c) = spawn_and_forget(fut, schedule, tag);
+        *sh.token.lock().unwrap() = Some(c);
+        r
+    };
+    schedule(first, tag);
+    let mut none = Vec::new();
+    for e in &ext {
+        match e {
+            0 | 1 | 2 => {
+                if let Some(r) = pop_runnable(tag) {
+                    r.run();
+                }
+            }
+            3 => {
+                if let Some(r) = pop_runnable(tag) {
+                    drop(r);
+                }
+            }
+            4 => re_apply(ReAct::WakeShared, &sh, None, &mut none),
+            5 => re_apply(ReAct::WakeSharedByRef, &sh, None, &mut none),
+            6 => re_apply(ReAct::PollPromise, &sh, None, &mut none),
+            _ => re_apply(*[ReAct::Cancel, ReAct::DropPromise, ReAct::DropSharedWakers, ReAct::DropToken].get(seed as usize % 4).unwrap(), &sh, None, &mut none),
+        }
+        if queued(tag) > 1 {
+            return Err(format!("two runnables of one task are scheduled at the same time ({})", desc));
+        }
+    }
+    // Release every handle, in a seed-dependent order, then the runnables.
+    let produced_before = st.completed.load(SeqCst);
+    let _ = produced_before;
+    for k in 0..4 {
+        match (k + seed) % 4 {
+            0 => re_apply(ReAct::DropPromise, &sh, None, &mut none),
+            // Tear-down cancels (this is what breaks waker cycles).
+            1 => re_apply(ReAct::Cancel, &sh, None, &mut none),
+            2 => re_apply(ReAct::DropSharedWakers, &sh, None, &mut none),
+            _ => {
+                while let Some(r) = pop_runnable(tag) {
+                    if seed % 3 == 0 {
+                        r.run();
+                    } else {
+                        drop(r);
+                    }
+                }
+            }
+        }
+    }
+    // Handles released by the future's own script may have re-populated the slots.
+    for _ in 0..3 {
+        re_apply(ReAct::DropSharedWakers, &sh, None, &mut none);
+        re_apply(ReAct::DropPromise, &sh, None, &mut none);
+        re_apply(ReAct::DropToken, &sh, None, &mut none);
+        while let Some(r) = pop_runnable(tag) {
+            drop(r);
+        }
+    }
+    let outs = std::mem::take(&mut *sh.outputs.lock().unwrap());
+    drop(outs);
+    if queued(tag) != 0 {
+        return Err(format!("a runnable is still scheduled after every handle was released ({})", desc));
+    }
+    let fd = st.fut_dropped.load(SeqCst);
+    if fd == 0 && cycle_possible {
+        return Ok((st.polls.load(SeqCst), format!("{} [waker cycle without cancellation: not judged]", desc)));
+    }
+    if fd != 1 {
+        return Err(format!("the future was dropped {} times ({})", fd, desc));
+    }
+    let produced = st.completed.load(SeqCst) as u64;
+    if st.out_dropped.load(SeqCst) != produced {
+        return Err(format!("the output was produced {} times and dropped {} times ({})", produced, st.out_dropped.load(SeqCst), desc));
+    }
+    if st.overlap.load(SeqCst) != 0 {
+        return Err(format!("two computations on the future overlapped (poll/poll or poll/drop) ({})", desc));
+    }
+    if st.poll_after_done.load(SeqCst) != 0 {
+        return Err(format!("the future was polled after it completed or was dropped ({})", desc));
+    }
+    Ok((st.polls.load(SeqCst), desc))
+}
+
+fn reent_part(rep: &mut Report, opts: &Opts) {
+    // Directed scripts first (cancel inside a Pending poll while the future owns
+    // the last waker / the promise is released in the wind-down window / a wake
+    // issued from the destructor), then seeded random ones.
+    let directed: Vec<(Vec<Vec<ReAct>>, Vec<ReAct>, Vec<u8>, u64, bool)> = vec![
+        (vec![vec![ReAct::OwnWaker, ReAct::DropPromise, ReAct::Cancel]], vec![], vec![0], 5, true),
+        (vec![vec![ReAct::ShareWaker, ReAct::Cancel]], vec![ReAct::DropPromise, ReAct::DropSharedWakers], vec![0], 5, true),
+        (vec![vec![ReAct::OwnWaker, ReAct::Cancel]], vec![ReAct::WakeSelf], vec![0, 0], 5, true),
+        (vec![vec![ReAct::ShareWaker, ReAct::Cancel]], vec![ReAct::WakeSharedByRef, ReAct::WakeShared], vec![0, 0, 0], 5, false),
+        (vec![vec![ReAct::OwnWaker, ReAct::WakeSelf, ReAct::Cancel], vec![ReAct::WakeSelf]], vec![ReAct::WakeSelf], vec![0, 0, 0], 5, true),
+        (vec![vec![ReAct::ShareWaker], vec![ReAct::Cancel, ReAct::DropPromise]], vec![ReAct::WakeShared], vec![0, 4, 0, 0], 5, true),
+    ];
+    let n = if cfg!(miri) { 40 } else { opts.n(60000, 1000000) };
+    for case in 0..n {
+        if !opts.mine(case) {
+            continue;
+        }
+        let seed = h2(opts.seed, 0xC13_4E00 + case);
+        let script = directed.get(case as usize).cloned();
+        rep.evaluations += 1;
+        match reent_case(seed, script, cfg!(miri) || opts.engine == "asan") {
+            Ok((polls, desc)) => {
+                rep.count("reentrant_polls", polls);
+                if desc.contains("Cancel") {
+                    rep.count("reentrant_cases_with_cancel_inside_poll_or_drop", 1);
+                    rep.distinct.insert(seed);
+                }
+                if rep.samples.len() < 2 && case < 6 {
+                    rep.samples.push(Json::obj().with("part", "reent").with("script", desc));
+                }
+            }
+            Err(e) => {
+                let sig = if e.contains("dropped") && e.contains("future") { "C13/future-dropped-not-exactly-once" } else if e.contains("output") { "C13/output-dropped-not-exactly-once" } else if e.contains("overlapped") { "C13/concurrent-polls" } else if e.contains("polled after") { "C13/poll-after-completion-or-drop" } else { "C13/runnable-scheduled-twice-or-left-over" };
+                rep.violation(sig, format!("[reent] {}", e), opts.replay_args("reent", case));
+            }
+        }
+    }
+}
+
 pub fn run(opts: &Opts) -> Report {
     let mut rep = Report::new("C13");
     let want = |p: &str| opts.part.as_deref().map_or(true, |x| x == p);
     if want("seq") {
         seq_part(&mut rep, opts);
+    }
+    if want("reent") {
+        reent_part(&mut rep, opts);
     }
     if want("conc") {
         let n = if cfg!(miri) { 2 * opts.nshards as u64 } else { opts.n(1500, 40000) };
